@@ -149,11 +149,11 @@ def handle : List String → Option String
     some (showWfn Iodata.Gen.Wf.wfxScalesFromSource (cvOf (parseTable conv)) (cvOf Iodata.Gen.Conventions.wfx)
       (parseShells shells) (parseInts coeffs))
   | ["molden", shells, conv, coeffs] =>
-    let r := (if Iodata.Gen.Wf.moldenRowsFollowSort then moldenDumpSorted else moldenDump)
+    let r := (moldenVariant Iodata.Gen.Wf.moldenRowsFollowSort)
       (cvOf (parseTable conv)) (cvOf Iodata.Gen.Conventions.molden) (parseShells shells) (parseInts coeffs)
     some (showShells r.1 ++ "|" ++ showInts r.2)
   | ["mkl", shells, conv, coeffs] =>
-    let r := (if Iodata.Gen.Wf.mklSeparatorsPerCentre then moldenDumpSorted else mklDump)
+    let r := (mklVariant Iodata.Gen.Wf.mklSeparatorsPerCentre)
       (cvOf (parseTable conv)) (cvOf Iodata.Gen.Conventions.molekel) (parseShells shells) (parseInts coeffs)
     some (showShells r.1 ++ "|" ++ showInts r.2)
   | ["mklirr", na, nb, irreps] =>
